@@ -3,6 +3,7 @@ package gedcom
 import (
 	"reflect"
 	"sync"
+	"sync/atomic"
 )
 
 type Nodes []Node
@@ -12,6 +13,29 @@ type Nodes []Node
 // looked up many time. Especially when doing larger task like comparing GEDCOM
 // files.
 var nodeCache = &sync.Map{} // map[Node]map[Tag]Nodes{}
+
+// editGeneration is incremented by every change to the nodes of any node or
+// document. Values that are calculated lazily from other nodes (like the
+// husband of a family or the families of an individual) remember the generation
+// they were calculated in and are only valid for that generation.
+var editGeneration uint64
+
+// nodesChanged must be called whenever the nodes of a node or a document
+// change so that everything derived from them is calculated again.
+func nodesChanged() {
+	atomic.AddUint64(&editGeneration, 1)
+
+	// This is pretty crude and nasty. I'm sorry if your workflow is to switch
+	// between small changes and large sweeping reads but this will do for now.
+	//
+	// We can't simply remove this node because we would have to make sure we
+	// work our way up the chain which we have no easy way of doing right now.
+	nodeCache = &sync.Map{}
+}
+
+func currentEditGeneration() uint64 {
+	return atomic.LoadUint64(&editGeneration)
+}
 
 func NewNodes(ns interface{}) (nodes Nodes) {
 	v := reflect.ValueOf(ns)
